@@ -297,6 +297,8 @@ func DrawWorld(t *rapid.T, cfg WorldCfg) (*World, *Drawn) {
 			d.add(true, "upper-ids")
 		}
 		// TDX module mask
+		w.TcbInfo.TcbType = rapid.SampledFrom([]int{0, 0, 0, 1, 1, 2, 255}).Draw(t, "tcbType")
+		d.add(w.TcbInfo.TcbType != 0, "tcbType-other-than-0")
 		w.TcbInfo.Mask = DrawMask(t, s, 8, "seamMask")
 		w.TcbInfo.Attributes = andBytes(q.SeamAttr[:], w.TcbInfo.Mask)
 		// platform levels: matching UpToDate level at position k
